@@ -1,60 +1,9 @@
-(* Every step of the cluster protocol (planner as written) preserves the accounting invariant as
-   long as the processed maps were hygienic; lifted to all schedules; the C16 statements. *)
+(* Every step of the cluster protocol with the REPAIRED planner (fx = true) preserves the accounting
+   invariant, for arbitrary ids; lifted to all schedules. *)
 From Coq Require Import List Arith NArith Bool Lia Permutation.
-From GS Require Import LTS Cluster ClusterLTS ClusterPlan ClusterRun ClusterInv.
+From GS Require Import LTS Cluster ClusterLTS ClusterPlan ClusterFix ClusterRun ClusterInv.
 Import ListNotations.
 Open Scope N_scope.
-
-(* ---------------------------------------------------------------- the ghost flag only ever drops *)
-Lemma hyg_finish s p : s_hyg (finish_round s p) = s_hyg s. Proof. reflexivity. Qed.
-Lemma hyg_next s p ts : s_hyg (next_start s p ts) = s_hyg s. Proof. destruct ts; reflexivity. Qed.
-Lemma hyg_after s p ts tp : s_hyg (after_stops s p ts tp) = s_hyg s.
-Proof. unfold after_stops. destruct ts; [reflexivity|]. destruct (s_delay s); reflexivity. Qed.
-Lemma hyg_begin s p : s_hyg (begin_round s p) = s_hyg s.
-Proof.
-  unfold begin_round. destruct (pending_actions p) as [ts tp]. destruct (stop_insts p tp); [|reflexivity].
-  destruct tp; [apply hyg_next|apply hyg_after].
-Qed.
-Lemma hyg_move i s : s_hyg (move_to_stopping i s) = s_hyg s.
-Proof. unfold move_to_stopping. destruct (find_inst i (s_live s)); reflexivity. Qed.
-
-Lemma hyg_mono s l s' : step false s l = Some s' -> s_hyg s' = true -> s_hyg s = true.
-Proof.
-  intros Hs Hh. destruct l; unfold step in Hs.
-  - destruct (s_offer s); [discriminate|]. destruct (s_closed s); [discriminate|]. injection Hs as <-. exact Hh.
-  - injection Hs as <-. exact Hh.
-  - destruct (s_stopreq s); [|discriminate]. destruct (s_pc s); try discriminate; injection Hs as <-; exact Hh.
-  - injection Hs as <-. exact Hh.
-  - destruct (s_offer s); [discriminate|]. injection Hs as <-. exact Hh.
-  - destruct (s_pc s); try discriminate. destruct (s_offer s); [|discriminate].
-    destruct (is_perm ord (keys (s_entries s))); [|discriminate]. injection Hs as <-.
-    rewrite hyg_begin in Hh. psimpl in Hh. now apply andb_prop in Hh as [Hh _].
-  - destruct (s_pc s); try discriminate. destruct (s_cancel s || s_stopreq s || s_closed s); [|discriminate].
-    injection Hs as <-. rewrite hyg_begin in Hh. exact Hh.
-  - destruct (s_pc s); try discriminate.
-    + destruct (memN i tocall); [|discriminate]. injection Hs as <-. now rewrite hyg_move in Hh.
-    + destruct ((i =? i0) && (negb (beh_eqb b BReady) || s_cancel s)); [|discriminate]. injection Hs as <-.
-      now rewrite hyg_move in Hh.
-  - destruct (s_pc s); try discriminate.
-    + destruct (memN i called); [|discriminate]. destruct tocall, (removeN i called); injection Hs as <-;
-        rewrite ?hyg_after in Hh; exact Hh.
-    + destruct (i =? i0); [|discriminate]. injection Hs as <-. now rewrite hyg_next in Hh.
-  - destruct (s_pc s); try discriminate. injection Hs as <-. exact Hh.
-  - destruct (s_pc s); try discriminate. destruct (s_cancel s); [|discriminate]. injection Hs as <-. exact Hh.
-  - destruct (s_pc s); try discriminate. destruct (lookup k pend); [|discriminate].
-    destruct (mem_id k ts && id_eqb (e_id e) k && (e_cfg e =? c) && (i =? s_next s)); [|discriminate].
-    injection Hs as <-. exact Hh.
-  - destruct (s_pc s); try discriminate. destruct (lookup k pend); [|discriminate].
-    destruct (mem_id k ts && id_eqb (e_id e) k && (e_cfg e =? c)); [|discriminate].
-    injection Hs as <-. now rewrite hyg_next in Hh.
-  - destruct (memN i (s_unrun s)); [|discriminate]. injection Hs as <-. exact Hh.
-  - destruct (s_pc s); try discriminate. destruct (beh_eqb b BReady); [|discriminate]. injection Hs as <-.
-    now rewrite hyg_next in Hh.
-  - destruct (s_pc s); try discriminate; destruct (n =? N.of_nat (count (s_entries s))); try discriminate;
-      injection Hs as <-; exact Hh.
-  - destruct (cstate_eqb c (s_fsm s)); [|discriminate]. injection Hs as <-. exact Hh.
-  - destruct (s_pc s); try discriminate. injection Hs as <-. exact Hh.
-Qed.
 
 (* ---------------------------------------------------------------- helpers *)
 Lemma at_key_in_keep pend k i : NoDup (keys pend) -> at_key pend k i -> In i (keep pend).
@@ -89,9 +38,9 @@ Proof. intros H. now apply filter_In in H as [H _]. Qed.
 Ltac frame Hs Hnd Hlt Hpc :=
   injection Hs as <-; unfold acct, acct_pc, lv, sp in *; psimpl; exact (conj Hnd (conj Hlt Hpc)).
 
-Lemma acct_step s l s' : acct s -> step false s l = Some s' -> s_hyg s' = true -> acct s'.
+Lemma acct_step s l s' : acct s -> step true s l = Some s' -> acct s'.
 Proof.
-  intros (Hnd & Hlt & Hpc) Hs Hh. destruct l; unfold step in Hs.
+  intros (Hnd & Hlt & Hpc) Hs. destruct l; unfold step in Hs.
   - (* LOffer *) destruct (s_offer s); [discriminate|]. destruct (s_closed s); [discriminate|]. frame Hs Hnd Hlt Hpc.
   - (* LStopApi *) frame Hs Hnd Hlt Hpc.
   - (* LStopApiRet *) destruct (s_stopreq s); [|discriminate].
@@ -101,29 +50,22 @@ Proof.
   - (* LRecv *)
     destruct (s_pc s) eqn:Epc; try discriminate. destruct (s_offer s) as [m|]; [|discriminate].
     destruct (is_perm ord (keys (s_entries s))) eqn:Ep; [|discriminate]. injection Hs as <-.
-    rewrite hyg_begin in Hh. psimpl in Hh. apply andb_prop in Hh as [_ Hh].
     unfold acct_pc in Hpc. rewrite Epc in Hpc. destruct Hpc as (Hk & Hp & Hsp & Hsh).
     set (cur := s_entries s) in *. set (des := new_entries m) in *.
     pose proof (is_perm_spec ord (keys cur) Hk Ep) as Hperm.
-    assert (Nord : NoDup ord) by (eapply Permutation_NoDup; [apply Permutation_sym; exact Hperm|exact Hk]).
-    assert (Sord : forall k, In k ord -> In k (keys cur)) by (intros k; apply Permutation_in; exact Hperm).
-    apply hygienicb_spec, hygienic_hyg2 in Hh.
-    destruct (build_pending_hygienic ord cur des Nord Sord (new_entries_nodup m) Hh) as (E & Hpk).
-    rewrite E. apply acct_begin; unfold lv, sp in *; psimpl; try assumption.
-    + eapply Permutation_trans; [exact Hp|]. apply Permutation_sym. now apply plan_conserves_runtimes.
-    + intros q e. apply plan_start_rt.
+    destruct (true_plan_good ord cur des Hk (new_entries_nodup m) Hperm) as (G1 & G2 & G3 & _).
+    apply acct_begin; unfold lv, sp in *; psimpl; try assumption.
+    + eapply Permutation_trans; [exact Hp|]. now apply Permutation_sym.
     + discriminate.
   - (* LShut *)
     destruct (s_pc s) eqn:Epc; try discriminate.
     destruct (s_cancel s || s_stopreq s || s_closed s); [|discriminate]. injection Hs as <-.
     unfold acct_pc in Hpc. rewrite Epc in Hpc. destruct Hpc as (Hk & Hp & Hsp & Hsh).
     set (cur := s_entries s) in *.
-    assert (Sord : forall k, In k (keys cur) -> In k (keys cur)) by auto.
-    destruct (build_pending_hygienic (keys cur) cur [] Hk Sord (NoDup_nil _) (hyg2_nil cur)) as (E & Hpk).
-    rewrite E. apply acct_begin; unfold lv, sp in *; psimpl; try assumption.
-    + eapply Permutation_trans; [exact Hp|]. apply Permutation_sym. now apply plan_conserves_runtimes.
-    + intros q e. apply plan_start_rt.
-    + intros _ q e. apply plan_shutdown_all_stop.
+    destruct (true_plan_good (keys cur) cur [] Hk (NoDup_nil _) (Permutation_refl _)) as (G1 & G2 & G3 & G4).
+    apply acct_begin; unfold lv, sp in *; psimpl; try assumption.
+    + eapply Permutation_trans; [exact Hp|]. now apply Permutation_sym.
+    + intros _. now apply G4.
   - (* LStopCall *)
     destruct (s_pc s) eqn:Epc; try discriminate; unfold acct_pc in Hpc; rewrite Epc in Hpc.
     + destruct (memN i tocall) eqn:Em; [|discriminate]. injection Hs as <-. apply memN_in in Em.
@@ -231,17 +173,12 @@ Proof.
     unfold acct, acct_pc in *. rewrite Epc in Hpc. psimpl. auto.
 Qed.
 
-Lemma Inv_step s l s' : Inv s -> step false s l = Some s' -> Inv s'.
+Lemma acct_init d : acct (init d).
 Proof.
-  intros HI Hs Hh. eapply acct_step; [|exact Hs|exact Hh]. apply HI. eapply hyg_mono; eassumption.
-Qed.
-
-Lemma Inv_init d : Inv (init d).
-Proof.
-  intros _. unfold acct, acct_pc, lv, sp, init. psimpl. cbn [map keys rts flat_map].
+  unfold acct, acct_pc, lv, sp, init. psimpl. cbn [map keys rts flat_map].
   repeat split; try constructor. intros j [].
 Qed.
 
-(* the invariant holds after every schedule *)
-Theorem Inv_reachable d ls s : run (step false) (init d) ls = Some s -> Inv s.
-Proof. intros H. eapply (run_inv _ _ (step false) Inv); [apply Inv_step|apply Inv_init|exact H]. Qed.
+(* the invariant holds after every schedule, whatever the ids *)
+Theorem acct_reachable d ls s : run (step true) (init d) ls = Some s -> acct s.
+Proof. intros H. eapply (run_inv _ _ (step true) acct); [apply acct_step|apply acct_init|exact H]. Qed.
